@@ -69,7 +69,7 @@ def check(pm: ProgramModel, ctx: Ctx) -> None:
     mb = ModelBuilder(pm)
     for writer, P in (("SPLOTWriter", "C10-SPLOT"), ("PLWriter", "C10-PL")):
         ndone = 0
-        for d in [x for x in domain_wf(ctx.tier, star=False) if x.n <= 3 and x.max <= 3 and x.min <= 3]:
+        for d in [x for x in domain_wf(ctx.tier, star=True) if x.n <= 3 and x.max <= 3 and x.min <= 3]:
             k = kind(d)
             m = kind_model(mb, [d])
             validate(ctx, pm, writer, f"{P}-COVER", f"kind:{k}:{d}", m, f"relation {d} ({k}) under the root",
